@@ -135,11 +135,23 @@ func lazySubscriberRun(W, L int, fails *[]failure) runRes {
 	return runRes{Cfg: c, Items: c.PerProducer, Errors: 1, WallMs: time.Since(t0).Milliseconds()}
 }
 
+// enqOpts: two Enqueue options in alternating order (their order must not matter)
+func enqOpts[T any](i int, a, b T) []T {
+	if i%2 == 0 {
+		return []T{a, b}
+	}
+	return []T{b, a}
+}
+
 func oneRun(c runCfg, fails *[]failure) runRes {
 	fail := func(clause, detail string) { addFail(fails, failure{clause, detail, c}) }
 	t0 := time.Now()
 	rng := rand.New(rand.NewSource(c.Seed))
-	q := workqueue.NewQueue(workqueue.WithWorkers(c.W), workqueue.WithQueueLength(c.L))
+	qopts := []workqueue.WorkQueueOption{workqueue.WithWorkers(c.W), workqueue.WithQueueLength(c.L)}
+	if c.Seed%2 == 0 { // the configuration does not depend on the order of the options
+		qopts[0], qopts[1] = qopts[1], qopts[0]
+	}
+	q := workqueue.NewQueue(qopts...)
 	total := c.Producers * c.PerProducer
 	counts := make([]atomic.Int64, total)
 	var running, maxRunning, finished atomic.Int64
@@ -237,7 +249,7 @@ func oneRun(c runCfg, fails *[]failure) runRes {
 						return errs[i]
 					}
 					return nil
-				}, workqueue.WithPriority(prios[i]), workqueue.WithName(strconv.Itoa(i)))
+				}, enqOpts(i, workqueue.WithPriority(prios[i]), workqueue.WithName(strconv.Itoa(i)))...)
 			}
 		}(p)
 	}
